@@ -437,7 +437,8 @@ def check_text(text, expected=None, grammar=True):
                         known = K_EOF_SU
                     elif lk == 'COMMENT' and got == (body[-1][2], body[-1][3]):
                         known = K_EOF_C
-                elif bshift and got == (want[0], want[1] - bshift):
+                if known is None and bshift and got == (want[0], want[1] - bshift):
+                    # (also behind a completed token once the EOF findings are repaired: only the BOM shift is left)
                     known = K_BOM
                 fails.append((CL_POS, known, '%s: EOF reports %d:%d, the end of input is at %d:%d' % ((tag,) + tuple(got) + want)))
             for d in completion_faults(text, body, spans):
@@ -580,17 +581,32 @@ def all_strings(ctx):
 
 # --------------------------------------------------------------------------------------------------- domain 2: long repetitive texts
 
+_STATUS = {}
+
+
+def _still_recorded(fid):
+    """the inputs of an exponential-time class are cut short only while the finding is recorded as known (not repaired); once it is
+    marked fixed they run in full under the time limit, so that the defect is reported if it ever returns"""
+    if not _STATUS:
+        import json
+        import os
+        fn = os.path.join(os.path.dirname(os.path.dirname(os.path.abspath(__file__))), 'known', 'C05.json')
+        for e in json.load(open(fn))['findings']:
+            _STATUS[e['id']] = e['status']
+    return _STATUS.get(fid) == 'known'
+
+
 def _long_worker(args):
     texts, limit = args
     acc = _Acc()
     signal.signal(signal.SIGALRM, _alarm)
     for text in texts:
         acc.n += 1
-        if string_backtrack_class(text):
+        if _still_recorded(K_STRBT) and string_backtrack_class(text):
             k = [m.start() for m in _HEXESC.finditer(text)][10]
             acc.add(text[:k], [(CL_TERM, K_STRBT, 'unterminated string with %d hex escapes: exponential matching time' % len(_HEXESC.findall(text)))], {'length': len(text)})
             text = text[:k]
-        if backtrack_class(text):
+        if _still_recorded(K_URIBS) and backtrack_class(text):
             # recorded finding: exponential time; the input is cut to 12 backslashes (everything else is still checked), the witness is timed in witnesses()
             k = [i for i, c in enumerate(text) if c == '\\'][12]
             acc.add(text[:k], [(CL_TERM, K_URIBS, 'url( followed by %d backslashes and no ")": exponential matching time' % text.count('\\'))], {'length': len(text)})
@@ -653,10 +669,6 @@ def long_texts(ctx):
 # ------------------------------------------------------------------------------------------------------ domain 3: token sequences
 # a spelling: (kind label, text, [(type, decoded value)], flags); flags: 'open' = ends in a hex escape without terminator (swallows one following white space),
 # 'cr' = ends in an escape terminated by CR (swallows a following LF), 'nows' = must not be followed by white space, 'nl' = must be followed by a line break
-
-def _sp(kind, text, toks=None, flags=''):
-    return (kind, text, toks, flags)
-
 
 def spellings():
     S = []
